@@ -181,8 +181,8 @@ def run(ctx):
 
     # the open-process table is keyed by the case-folded definition name (definition names are case-insensitive)
     ctx.rule("R20.5", "every access to the open-process table case-folds the definition name (casefold)")
-    from sa.norm import check_uniform, mapping_accesses
-    acc = mapping_accesses(temporal, lambda e: isinstance(e, ast.Name) and e.id == table_param)
+    from sa.norm import check_uniform, accesses_with_helpers
+    acc = accesses_with_helpers(ctx, temporal, table_param)
     check_uniform(ctx, "R20.5", acc, {"casefold"}, "the open-process table `%s`" % table_param,
                   "an Onset or Offset that spells the definition name in another letter case does not find the open process: "
                   "the process is never closed (or the Offset raises KeyError)")
@@ -217,20 +217,31 @@ def run(ctx):
                       "start strictly earlier" % norm(c.args[0])[:40], desc="context range starts at the next time point")
     ctx.floor("R20.7", "context ranges in _extract_context", n_rng, 1)
 
-    # popped events are ended
-    vt = view(ctx, temporal)
+    # popped events are ended (in the extraction itself or in a helper the table is handed to)
+    holders = [(temporal, table_param)]
+    for c in walk_no_nested(temporal.node):
+        if isinstance(c, ast.Call) and any(isinstance(a, ast.Name) and a.id == table_param for a in c.args):
+            order = cg.param_order.get(id(c))
+            tg = [t for (k, t) in cg.resolve_call(c, temporal) if k == "precise"]
+            if order and len(tg) == 1:
+                for i, a in enumerate(c.args):
+                    if isinstance(a, ast.Name) and a.id == table_param and i < len(order):
+                        holders.append((tg[0], order[i]))
     pops = []
-    for n in vt.cfg.nodes:
-        if n.kind == "stmt" and isinstance(n.ast, ast.Assign) and isinstance(n.ast.value, ast.Call) and \
-                isinstance(n.ast.value.func, ast.Attribute) and n.ast.value.func.attr == "pop" and \
-                norm(n.ast.value.func.value) == table_param and isinstance(n.ast.targets[0], ast.Name):
-            pops.append((n, n.ast.targets[0].id))
-    for n, var in pops:
-        ends = [m for (m, c) in vt.calls(lambda c: isinstance(c.func, ast.Attribute) and c.func.attr == "set_end"
-                                         and norm(c.func.value) == var)]
-        ctx.check(bool(ends) and vt.every_path_to_exit_passes(n, ends), "R20.2", temporal.qualname, n.ast,
-                  loc(temporal, n.ast), "a process popped from the open table is not given an end on every path",
-                  desc="popped process `%s` is ended" % var)
+    for hf, tname in holders:
+        ctx.saw(hf)
+        vt = view(ctx, hf)
+        for n in vt.cfg.nodes:
+            if n.kind == "stmt" and isinstance(n.ast, ast.Assign) and isinstance(n.ast.value, ast.Call) and \
+                    isinstance(n.ast.value.func, ast.Attribute) and n.ast.value.func.attr == "pop" and \
+                    norm(n.ast.value.func.value) == tname and isinstance(n.ast.targets[0], ast.Name):
+                var = n.ast.targets[0].id
+                pops.append((n, var))
+                ends = [m for (m, c) in vt.calls(lambda c, var=var: isinstance(c.func, ast.Attribute) and c.func.attr == "set_end"
+                                                 and norm(c.func.value) == var)]
+                ctx.check(bool(ends) and vt.every_path_to_exit_passes(n, ends), "R20.2", hf.qualname, n.ast,
+                          loc(hf, n.ast), "a process popped from the open table is not given an end on every path",
+                          desc="popped process `%s` is ended" % var)
     ctx.floor("R20.2", "pop sites of the open-process table", len(pops), 1)
     # a replaced entry must have been popped: the store into the table is preceded by the pop-if-present test
     # duration events: set_end between construction and listing
